@@ -495,10 +495,7 @@ class Fxp():
             if self.scaled:
                 self.set_val((_old_val / 2**_old_n_frac) * self.scale + self.bias)
             else:
-                if self.n_word >= _n_word_max and _old_val.dtype != object:
-                    # (the shifted codes of a word of 64 bits and more do not fit the machine integer they come from)
-                    _old_val = _old_val.astype(object)
-                self.set_val(_old_val * 2**(self.n_frac - _old_n_frac), raw=True)
+                self.set_val(self._wide_raw(_old_val) * 2**(self.n_frac - _old_n_frac), raw=True)
         else:
             self.set_val(_old_val, raw=True)
 
@@ -684,7 +681,7 @@ class Fxp():
                 vdtype = float
 
             # force return raw value for better precision
-            val = val.val * 2**(self.n_frac - val.n_frac)
+            val = self._wide_raw(val.val) * 2**(self.n_frac - val.n_frac)
             raw = True
 
         elif isinstance(val, (int, float, complex)):
@@ -775,6 +772,13 @@ class Fxp():
             return val, vdtype, raw, signed, n_word, n_frac
         else:
             return val, vdtype, raw
+
+    def _wide_raw(self, raw_val):
+        # raw values about to be shifted into this object's format: words of 64 bits and more need python integers
+        # (an int64/uint64 array times 2**k wraps or raises once the shifted codes leave the machine integer)
+        if self.n_word is not None and self.n_word >= _n_word_max and isinstance(raw_val, np.ndarray) and raw_val.dtype.kind in 'iu':
+            raw_val = raw_val.astype(object)
+        return raw_val
 
     def _get_conv_factor(self, raw=False):
         # precision_cast = (lambda m: np.array(m, dtype=object)) if self.status['extended_prec'] else (lambda m: m)
@@ -1101,7 +1105,7 @@ class Fxp():
             # `index` selects the destination element(s) only; the source is taken whole
             raw_val = x.val
 
-            new_val_raw = raw_val * 2**(self.n_frac - x.n_frac)
+            new_val_raw = self._wide_raw(raw_val) * 2**(self.n_frac - x.n_frac)
             self.set_val(new_val_raw, raw=True, index=index)
         else:
             self.set_val(x, index=index)
@@ -1668,7 +1672,7 @@ class Fxp():
 
     def like(self, x):
         if isinstance(x, self.__class__):
-            new_raw_val = self.val * 2**(x.n_frac - self.n_frac)
+            new_raw_val = x._wide_raw(self.val) * 2**(x.n_frac - self.n_frac)
             return  x.deepcopy().set_val(new_raw_val, raw=True)
         else:
             raise ValueError('`x` should be a Fxp object!')
